@@ -106,7 +106,9 @@ def run(tier, seed, replay_path=None):
                 for S in (subsets if deep else rng.sample(subsets, 3)):
                     qs.append((m, S))
             args.append((PROP, i, f["src"], seed * 7919 + i, qs))
-        cases = split_raised(o, flatten(pmap(decquery.build_generated, args)))
+        # ladders of 5..30 nested tables: deeper than anything the enumerated universe or a bounded shipped mother holds
+        ladders = [(PROP, f"ladder{j}", rng.randint(5, 30), seed * 401 + j) for j in range(300 if deep else 30)]
+        cases = split_raised(o, flatten(pmap(decquery.build_generated, args)) + flatten(pmap(decquery.build_ladder, ladders)))
         rej = decfam.judge(cases, wd, o, "judge chains of TLC-generated table sets (DecTrace/DecQuery)")
         record(o, cases, rej)
         # C -> S on the shipped files
